@@ -313,6 +313,9 @@ func c06Jobs(thorough bool) []c06Job {
 	// one record, moved to the export buffer by the poll goroutine (batch size 1), and a ForceFlush
 	// from another thread that finds queue and buffer empty while the record is on its way to Export
 	L12 := c06Scn{"L12", [][]string{{"M:a1"}, {"F"}}, []string{"S"}}
+	// two Shutdown calls at once ("Shutdown from many goroutines"): each one that returns nil has the
+	// records emitted before it was called exported
+	L13 := c06Scn{"L13", [][]string{{"M:a1", "M:a2"}, {"S"}, {"S"}}, nil}
 	q2b1, q2b2, q1b1 := c06Cfg{2, 1, 1, false}, c06Cfg{2, 2, 1, false}, c06Cfg{1, 1, 1, false}
 	q3b2, q4b2 := c06Cfg{3, 2, 1, false}, c06Cfg{4, 2, 2, false}
 	q3b2f, q2b1f := c06Cfg{3, 2, 1, true}, c06Cfg{2, 1, 1, true}
@@ -326,6 +329,7 @@ func c06Jobs(thorough bool) []c06Job {
 			{L1, q3b2f, 0, 1}, {L4, q2b2, 1, 0}, {L10, q4b2buf1, 1, 0},
 			{L11, q2b1, 1, 0}, {L11, q2b2, 1, 0},
 			{L7, q2b1, 1, 0}, {L7, q2b1f, 0, 1},
+			{L13, q2b2, 1, 0}, {L13, q2b1, 1, 0},
 			{L12, q2b1, 2, 0}, {L12, q1b1, 1, 1}, // a Shutdown cut short, then another: where two recorded findings show
 		}
 	}
@@ -343,6 +347,7 @@ func c06Jobs(thorough bool) []c06Job {
 			js = append(js, c06Job{sc, c, 1, 1})
 		}
 	}
+	js = append(js, c06Job{L13, q2b2, 2, 1}, c06Job{L13, q2b1, 2, 0}, c06Job{L13, q1b1, 2, 1})
 	js = append(js, c06Job{L12, q2b1, 3, 0}, c06Job{L12, q1b1, 2, 1}, c06Job{L12, q2b2, 2, 1})
 	js = append(js, c06Job{L11, q2b1, 2, 0}, c06Job{L11, q2b2, 2, 0}, c06Job{L11, q2b1, 1, 1})
 	js = append(js, c06Job{L8, q3b2f, 1, 2}, c06Job{L8, q2b1f, 1, 2}, c06Job{L10, q4b2buf1, 2, 1}, c06Job{L10, q2b1, 2, 0}, c06Job{L10, q3b2, 1, 1})
